@@ -2,3 +2,4 @@
 pub mod fault;
 pub mod rig;
 pub mod wire;
+pub mod sacksynth;
